@@ -47,6 +47,7 @@ CONSTANTS
   FaultBudget,   \* number of injected storage faults when model checking
   Grace,         \* collector grace period used when an operation does not name one (logical ms)
   OldFiles,      \* TRUE: data files written by transactions are already older than any grace period
+  PreFiles,      \* data files the user built beforehand: present, old, unreferenced; appended by Table.append_data(files)
                  \* (pre-built files, long-running transactions): only markers can protect them
   MarkerTimeout  \* age after which an in-flight marker counts as abandoned (the code: 24 h)
 
@@ -210,8 +211,8 @@ Init ==
   /\ LET K == IF InitTable = "absent" THEN 0 ELSE InitSnaps IN
      /\ lists = [l \in {920 + j : j \in 1..K} |-> [i \in 1..(l - 920) |-> 940 + i]]
      /\ mans = [m \in {940 + j : j \in 1..K} |-> {[file |-> 960 + (m - 940), status |-> "ADDED", snap |-> 900 + (m - 940), seq |-> m - 940]}]
-     /\ present = {920 + j : j \in 1..K} \cup {940 + j : j \in 1..K} \cup {960 + j : j \in 1..K}
-     /\ ftime = [f \in ({920 + j : j \in 1..K} \cup {940 + j : j \in 1..K} \cup {960 + j : j \in 1..K}) |-> OldTime]
+     /\ present = {920 + j : j \in 1..K} \cup {940 + j : j \in 1..K} \cup {960 + j : j \in 1..K} \cup PreFiles
+     /\ ftime = [f \in ({920 + j : j \in 1..K} \cup {940 + j : j \in 1..K} \cup {960 + j : j \in 1..K} \cup PreFiles) |-> OldTime]
   /\ markers = {}
   /\ mtimeM = <<>>
   /\ clock = InitSnaps
@@ -277,6 +278,7 @@ DamageHintB(cls, name) ==
 (* entries), newMans, list, draft, valName, prevName, nextVer, etagName.    *)
 (***************************************************************************)
 OpKind(a) == CurOp(a).t            \* "append" | "delete" | "expire" | "delsnap" | "multi"
+Style(a) == IF "style" \in DOMAIN CurOp(a) THEN CurOp(a).style ELSE "ctx"
 AppendFiles(a) == IF OpKind(a) \in {"append", "multi"} THEN CurOp(a).add ELSE <<>>   \* sequence of data file ids
 DeleteFiles(a) == IF OpKind(a) \in {"delete", "multi"} THEN CurOp(a).del ELSE {}
 Cutoff(a) == IF OpKind(a) \in {"expire", "multi"} THEN CurOp(a).cutoff ELSE NoCutoff
@@ -294,8 +296,27 @@ Begin(a) ==
 
 NextAppend(a) == AppendFiles(a)[Len(loc[a].files) + 1]
 
+\* the file-level API: Transaction.append_files / Table.append_data(files) queue files that exist already
+IsPre(a) == OpKind(a) = "append" /\ "pre" \in DOMAIN CurOp(a)
+
+\* transaction.py:88-110: existence probe (+ footer read), then the file is queued.  NO in-flight marker is
+\* written for it (named deviation: _register_inflight is only called by append_data(records)); a missing
+\* file raises FileNotFoundError out of the with-block.
+QueuePrebuilt(a, f) ==
+  /\ pc[a] = "tx_check"
+  /\ IsPre(a)
+  /\ Len(loc[a].files) < Len(AppendFiles(a))
+  /\ f = NextAppend(a)
+  /\ IF f \in present
+     THEN /\ loc' = [loc EXCEPT ![a].files = Append(@, f)]
+          /\ UNCHANGED pc
+     ELSE /\ loc' = [loc EXCEPT ![a].err = "error"]
+          /\ pc' = [pc EXCEPT ![a] = IF Style(a) = "ctx" THEN "rollback" ELSE "raise_keep"]
+  /\ UNCHANGED <<storageVars, clock, lockHolder, rlock, opi, att, faults, lease, ghostVars>>
+
 WriteMarkerD(a, f) ==
   /\ pc[a] = "tx_check"
+  /\ ~IsPre(a)
   /\ Len(loc[a].files) < Len(AppendFiles(a))
   /\ f = NextAppend(a)
   /\ markers' = markers \cup {f}
@@ -506,8 +527,10 @@ StampUpdate(a, t) ==
 \* second read of the pointer: version number (+ ETag on CAS backends) (metadata_manager.py:187-204)
 ReadVersion(a, name) ==
   /\ pc[a] = "c_readver"
-  /\ IF Backend = "s3cas" /\ hint.cls = "name" THEN name = hint.name ELSE CanResolve(name)
-  /\ LET stale == FixEtag /\ Backend = "s3cas" /\ name # loc[a].valName /\ name \in DOMAIN metas IN
+  \* CAS backends read the pointer (with its ETag) themselves; a pointer naming a file that does not exist is not a
+  \* version: neither its name nor its NUMBER is used, the version comes from the scan like everywhere else
+  /\ IF Backend = "s3cas" /\ HintedName # NoName THEN name = HintedName ELSE CanResolve(name)
+  /\ LET stale == FixEtag /\ Backend = "s3cas" /\ HintedName # NoName /\ name # loc[a].valName IN
      /\ loc' = [loc EXCEPT ![a].prevName = name, ![a].nextVer = (IF name = NoName THEN 1 ELSE name.v + 1),
                            ![a].etagName = (IF hint.cls = "name" THEN hint.name ELSE NoName),
                            ![a].draft = AppendMlog(loc[a].draft, name),
@@ -689,7 +712,6 @@ ReturnErr(a) ==
 (* Where control goes: transaction.py:422-448 (commit's handlers), :620-665 *)
 (* (rollback), metadata_manager.py:238-242 (finally: release), :285-320.    *)
 (***************************************************************************)
-Style(a) == IF "style" \in DOMAIN CurOp(a) THEN CurOp(a).style ELSE "ctx"
 
 BodyPcs    == {"tx_check", "tx_data"}
 PreLockPcs == {"c_tlock", "c_base", "c_readlist", "c_readman", "c_rew_mark", "c_rew", "c_checkdata", "c_wman_mark", "c_wman", "c_wlist_mark", "c_wlist", "c_stamp", "ds_resolve"}
@@ -1264,6 +1286,7 @@ MName(a)  == [v |-> loc[a].nextVer, u |-> IdBase(a)]
 CommitterNext(a) ==
   \/ Begin(a)
   \/ \E f \in 1..99 : WriteMarkerD(a, f) \/ WriteData(a, f, IF OldFiles /\ NoCollectionStarted THEN OldTime ELSE clock)
+  \/ \E f \in PreFiles : QueuePrebuilt(a, f)
   \/ CommitStart(a)
   \/ \E n \in DOMAIN metas : ReadBase(a, n)
   \/ ReadBaseList(a)
@@ -1303,6 +1326,7 @@ DamageNext ==
   /\ \E k \in DamageKinds :
        \/ k \in {"missing", "garbage"} /\ hint.cls # k /\ DamageHintB(k, NoName)
        \/ k = "dangling" /\ DamageHintB("name", [v |-> 99, u |-> 99])
+       \/ k = "danglinglow" /\ DamageHintB("name", [v |-> 0, u |-> 99])      \* e.g. the legacy form "0": names a missing file, LOWER than the latest
        \/ k = "stale" /\ \E n \in OlderCommitted : DamageHintB("name", n)
 
 Next ==
